@@ -585,14 +585,15 @@ func c09LineCol(src string, off int) (line, col int) {
 //	K1 escnl-crlf      columns on the line that follows a backslash-CR-LF continuation are one too large
 //	K2 escnl-lit-end   a Lit that ends at an escaped newline (inside "…" or a here-document body) has its
 //	                   End at the newline byte, with the column of the backslash
-//	K3 comment-escnl   a comment that ends in a backslash swallows the newline into Text; its End is on the
-//	                   next line but says the comment's line
+//	(K3 comment-escnl: fixed by 9fa8900, witness in corpus/C09-fixed.txt)
 //	K4 dropped-bytes   NUL bytes / escaped newlines inside a token whose end is computed from its length
 //	                   (comment text, fi, done, esac, )), ]], …): End() falls short by the dropped bytes
 //	K5 hdoc-extent     a node whose End() is the end of a here-document body is not within its parent
 //	                   unless that here-document is the statement's last redirection and the statement
 //	                   is the last thing in every enclosing node
-//	K6 coproc-stmt-pos `coproc a b`: the inner Stmt starts at the second word
+//	K6 coproc-assign   `coproc set a=b`: the name word is prepended to the arguments of a call that consists of
+//	                   an assignment, giving Assigns=[a=b] Args=[set]: CallExpr.Pos() is after its End()
+//	                   (the Stmt position half of the old K6 was fixed by 6e8c254)
 //	K8 backslash-eof   a backslash as the last byte of the input: the column of the final position is one too large
 //	K9 comment-after-file  the trailing comment after `a | b <<E` with an empty here-document is attached to the
 //	                   inner statement, File.End() does not include it
@@ -649,24 +650,17 @@ func (t *c09Tree) judge(strict bool) (string, []string) {
 		}
 		report(region, format, args...)
 	}
-	// offsets that are the End() of a comment ending in backslash-newline (K3)
-	k3 := map[int]bool{}
-	for _, cn := range t.nodes {
-		if c, ok := cn.Node.(*syntax.Comment); ok && strings.HasSuffix(c.Text, "\\\n") {
-			k3[int(cn.end.Offset())] = true
-		}
-	}
-	// nodes of `coproc a b…` whose name word was folded into the call (K6)
+	// the call of `coproc name assignment…` whose name word was prepended to Args (K6), and its children
 	k6 := map[int]bool{}
 	for _, cn := range t.nodes {
-		if cc, ok := cn.Node.(*syntax.CoprocClause); ok && cc.Name == nil && cc.Stmt != nil {
-			if call, ok := cc.Stmt.Cmd.(*syntax.CallExpr); ok && len(call.Args) > 0 && call.Args[0].Pos().Offset() < cc.Stmt.Position.Offset() {
-				for _, k := range cn.Kids {
-					k6[k.ID] = true
-					for _, k2 := range k.Kids {
-						k6[k2.ID] = true
-					}
-				}
+		call, ok := cn.Node.(*syntax.CallExpr)
+		if !ok || cn.Parent == nil || cn.Parent.Parent == nil || cn.Parent.Parent.Type != "CoprocClause" {
+			continue
+		}
+		if len(call.Assigns) > 0 && len(call.Args) > 0 && call.Args[0].Pos().Offset() < call.Assigns[0].Pos().Offset() {
+			k6[cn.ID] = true
+			for _, k := range cn.Kids {
+				k6[k.ID] = true
 			}
 		}
 	}
@@ -695,8 +689,6 @@ func (t *c09Tree) judge(strict bool) (string, []string) {
 				region = "K1"
 			case off == n && strings.HasSuffix(src, "\\"):
 				region = "K8"
-			case isEnd && k3[off]:
-				region = "K3"
 			case off > 0 && off < n && src[off-1] == '\\' && (src[off] == '\n' || strings.HasPrefix(src[off:], "\r\n")):
 				region = "K2"
 			}
@@ -820,9 +812,7 @@ func (t *c09Tree) judge(strict bool) (string, []string) {
 			anc := t.nodes[0]
 			if cn.pos.Offset() < anc.pos.Offset() || cn.end.Offset() > anc.end.Offset() {
 				region := ""
-				if len(k3) > 0 {
-					region = "K3"
-				} else if t.hdocOp && cn.end.Offset() > anc.end.Offset() {
+				if t.hdocOp && cn.end.Offset() > anc.end.Offset() {
 					region = "K9"
 				}
 				report(region, "Comment [%d,%d) attached to a %s lies outside the File [%d,%d)", cn.pos.Offset(), cn.end.Offset(), par.Type, anc.pos.Offset(), anc.end.Offset())
@@ -832,8 +822,6 @@ func (t *c09Tree) judge(strict bool) (string, []string) {
 		if cn.pos.Offset() < par.pos.Offset() || cn.end.Offset() > par.end.Offset() {
 			region := ""
 			switch {
-			case len(k3) > 0:
-				region = "K3" // the command goes on after the comment; the comment's holder does not
 			case cn.pos.Offset() >= par.pos.Offset() && hdocEnds[int(cn.end.Offset())]:
 				region = "K5"
 			case k6[cn.ID] || k6[par.ID]:
